@@ -26,6 +26,11 @@ mod cpp_string_model;
 #[cfg(all(kani, feature = "cppwriter"))]
 mod c12_cpp_writer;
 
+// C01 / C12: the runtime prototypes of the generated diplomat_runtime.h (generated per run by lib/rtprotos.py)
+#[cfg(all(kani, feature = "rtprotos"))]
+#[path = "../../../cache/gen/rt_protos_gen.rs"]
+mod rt_protos;
+
 #[cfg(all(kani, test))]
 mod checking_alloc;
 #[cfg(all(kani, test))]
